@@ -6,6 +6,7 @@ import (
 	"hash/fnv"
 	"strings"
 
+	"github.com/vulpemventures/go-elements/address"
 	"github.com/vulpemventures/go-elements/blech32"
 )
 
@@ -22,8 +23,56 @@ func b32Standard(hrp string, ndata int) bool {
 	return (hrp == "lq" || hrp == "tlq" || hrp == "el") && (ndata == 86 || ndata == 105)
 }
 
-// accepted reports whether Decode accepts s (a panic is not an acceptance; it is C12's business)
-func b32Accepted(s []byte) bool { return b32Decode(string(s)).class == "ok" }
+// accepted reports whether Decode accepts s (a panic is not an acceptance; it is C12's business).
+// Every string is presented TWICE in a row: a string rejected the first time must be rejected again
+// (a decoder that remembers what it has seen must not change its mind), so "accepted" means accepted
+// by either call.
+func b32Accepted(s []byte) bool {
+	str := string(s)
+	a := b32Decode(str).class == "ok"
+	b := b32Decode(str).class == "ok"
+	return a || b
+}
+
+// the address-level decoders built on blech32.Decode, each asked twice as well
+func addrLayerAccepts(s []byte) string {
+	str := string(s)
+	for k := 0; k < 2; k++ {
+		if guard(func() string {
+			if _, err := address.FromBlech32(str); err == nil {
+				return "ok"
+			}
+			return ""
+		}) == "ok" {
+			return "FromBlech32"
+		}
+	}
+	if guard(func() string {
+		if _, err := address.DecodeType(str); err == nil {
+			return "ok"
+		}
+		return ""
+	}) == "ok" {
+		return "DecodeType"
+	}
+	if guard(func() string {
+		if _, err := address.ToOutputScript(str); err == nil {
+			return "ok"
+		}
+		return ""
+	}) == "ok" {
+		return "ToOutputScript"
+	}
+	if guard(func() string {
+		if _, err := address.FromConfidential(str); err == nil {
+			return "ok"
+		}
+		return ""
+	}) == "ok" {
+		return "FromConfidential"
+	}
+	return ""
+}
 
 // checks shared by b32dec and b32sub2 on a string the implementation accepts
 func c15Common(s string, d b32dec, r *Rng) string {
@@ -35,7 +84,15 @@ func c15Common(s string, d b32dec, r *Rng) string {
 			return fail("case-insensitive", "spelling-decodes-differently")
 		}
 	}
-	// every mixed-case spelling obtained by flipping the case of one letter is rejected
+	// the valid string is accepted again, with the same data, however often it is asked
+	for k := 0; k < 2; k++ {
+		dv := b32Decode(s)
+		if dv.class != "ok" || dv.hrp != d.hrp || !bytes.Equal(dv.data, d.data) {
+			return fail("repeat-decode", "valid-string-answers-differ")
+		}
+	}
+	// every mixed-case spelling obtained by flipping the case of one letter is rejected,
+	// by blech32.Decode and by the address decoders on top of it
 	lb, ub := []byte(lower), []byte(upper)
 	nletters := 0
 	for i := range lb {
@@ -53,10 +110,32 @@ func c15Common(s string, d b32dec, r *Rng) string {
 			if b32Accepted(m) {
 				return fail("mixed-case", fmt.Sprintf("one-upper-at=%d", i))
 			}
+			if f := addrLayerAccepts(m); f != "" {
+				return fail("mixed-case-address", fmt.Sprintf("%s/one-upper-at=%d", f, i))
+			}
 			m = append([]byte{}, ub...)
 			m[i] = lb[i]
 			if b32Accepted(m) {
 				return fail("mixed-case", fmt.Sprintf("one-lower-at=%d", i))
+			}
+			if f := addrLayerAccepts(m); f != "" {
+				return fail("mixed-case-address", fmt.Sprintf("%s/one-lower-at=%d", f, i))
+			}
+		}
+		// upper-case prefix with lower-case data part, and the other way round
+		one := strings.LastIndexByte(lower, '1')
+		if one > 0 {
+			for k, m := range [][]byte{append(append([]byte{}, ub[:one+1]...), lb[one+1:]...),
+				append(append([]byte{}, lb[:one+1]...), ub[one+1:]...)} {
+				if string(m) == lower || string(m) == upper {
+					continue
+				}
+				if b32Accepted(m) {
+					return fail("mixed-case", fmt.Sprintf("block-pattern=%d", k))
+				}
+				if f := addrLayerAccepts(m); f != "" {
+					return fail("mixed-case-address", fmt.Sprintf("%s/block-pattern=%d", f, k))
+				}
 			}
 		}
 	}
@@ -71,6 +150,9 @@ func c15Common(s string, d b32dec, r *Rng) string {
 	if x, ok := b32Encode(d.hrp, d.data, other); ok {
 		if b32Accepted([]byte(x)) {
 			return fail("version-constant", "other-constant-accepted")
+		}
+		if f := addrLayerAccepts([]byte(x)); f != "" {
+			return fail("version-constant", "other-constant-accepted-by-"+f)
 		}
 		// and with the version symbol swapped to match that constant it is a different valid address
 	}
@@ -97,6 +179,11 @@ func c15Sub1(lb []byte, first, last int) string {
 			lb[p] = c
 			if b32Accepted(lb) {
 				return fail("sub1", fmt.Sprintf("pos=%d/char=%c", p, c))
+			}
+			if (k+p)%8 == 0 {
+				if f := addrLayerAccepts(lb); f != "" {
+					return fail("sub1-address", fmt.Sprintf("%s/pos=%d/char=%c", f, p, c))
+				}
 			}
 		}
 		lb[p] = orig
